@@ -1891,6 +1891,7 @@ class Cursor(object):
         self._limit = limit if limit != 0 else None
         self._collation = collation
         self.session = session
+        self.__empty = False
         self.rewind()
 
     def _compute_results(self, with_limit_and_skip=False):
@@ -1905,7 +1906,9 @@ class Cursor(object):
             self._results = results
         if with_limit_and_skip:
             results = self._results[self._skip:]
-            if self._limit:
+            if self.__empty:
+                results = []
+            elif self._limit:
                 results = results[:abs(self._limit)]
         else:
             results = self._results
@@ -1956,6 +1959,7 @@ class Cursor(object):
 
     def limit(self, count):
         self._limit = count if count != 0 else None
+        self.__empty = False
         return self
 
     def batch_size(self, count):
@@ -1997,6 +2001,7 @@ class Cursor(object):
                 raise IndexError('Cursor instances do not support slice steps')
 
             skip = 0
+            self.__empty = False
             if index.start is not None:
                 if index.start < 0:
                     raise IndexError('Cursor instances do not support'
